@@ -386,9 +386,16 @@ def run(ctx):  # noqa: C901
     Nt = Normalizer(m, tn, inline=False)
     folds = [Nt(n.value) for n in walk_no_nested(tn.node) if isinstance(n, ast.Assign) and isinstance(n.targets[0], ast.Name) and n.targets[0].id == "result" and isinstance(n.value, ast.Call)]
     okf = len(folds) >= 2 and all(t[0] == "call" and t[1] == "numpy.kron" and t[2][0] == ("n", "result") for t in folds)
+    if not folds:
+        # functools.reduce(np.kron, seq) IS the left fold kron(kron(a, b), c); anything else without an explicit fold is not decided here
+        red = [c_ for f_ in [tn] + [g for g in m.functions.values() if g.module is tn.module and g is not tn] for c_ in ast.walk(f_.node)
+               if isinstance(c_, ast.Call) and getattr(c_.func, "attr", getattr(c_.func, "id", "")) == "reduce" and c_.args and unparse(c_.args[0]) in ("np.kron", "numpy.kron")]
+        okf = True if red else None
     ctx.ob("R-LAYOUT", tn, "n-ary forms fold left to right: result = kron(result, next)", okf, f"{len(folds)} folds keep the accumulated product on the left" if okf else "a fold puts the next factor on the left (reverses the product)")
     two = [Nt(rn.value) for rn, facts in flw.flow(tn.node).returns if rn is not None and isinstance(rn.value, ast.Call) and m.resolve_call(tn, rn.value).key == "numpy.kron"]
     ok2 = bool(two) and all(t[2][0][2] == ("c", 0) and t[2][1][2] == ("c", 1) for t in two if t[2][0][0] == "sub" and t[2][1][0] == "sub")
+    if not two:
+        ok2 = None if okf is None else True if not folds else ok2  # no separate binary form: it is the n-ary fold with two operands
     ctx.ob("R-LAYOUT", tn, "binary forms are kron(first, second)", ok2, "argument order preserved" if ok2 else "binary form swaps its operands")
     # n-fold power: the squaring helper yields exactly n tensor factors (exponent counting, see engine/powcount.py)
     from ..powcount import check_power_by_squaring
@@ -442,6 +449,8 @@ def run(ctx):  # noqa: C901
     mj = F(m, "majorizes")
     srt = [n for n in walk_no_nested(mj.node) if isinstance(n, ast.Subscript) and isinstance(n.value, ast.Call) and m.resolve_call(mj, n.value).key == "numpy.sort"]
     oksrt = len(srt) == 2 and all(isinstance(s.slice, ast.Slice) and isinstance(s.slice.step, ast.UnaryOp) for s in srt)
+    if not srt and not any(isinstance(c_, ast.Call) and getattr(c_.func, "attr", "") in ("sort", "argsort") for c_ in walk_no_nested(mj.node)):
+        oksrt = None  # the ordering is done in a helper: not decided here
     ctx.ob("R-PRED", mj, "both vectors sorted in decreasing order", oksrt, "np.sort(..)[::-1] twice" if oksrt else "descending sort missing on one side")
     # partial sums: _A accumulates the first vector, _B the second; `if _A < _B: return False`
     accs_m = pmatch.find(mj.node, ["_S += _V[_I]", "_S = _S + _V[_I]"])
@@ -485,7 +494,7 @@ def run(ctx):  # noqa: C901
     for n_ in walk_no_nested(mj.node):
         if isinstance(n_, ast.Assign) and len(n_.targets) == 1 and isinstance(n_.targets[0], ast.Name) and isinstance(n_.value, ast.Call) and getattr(n_.value.func, "attr", "") in ("pad", "append", "concatenate", "hstack"):
             pads[n_.targets[0].id] = n_
-    okpad = "a_var" in pads and "b_var" in pads
+    okpad = ("a_var" in pads and "b_var" in pads) or (len(pads) >= 2 and "a_var" not in pads and "b_var" not in pads)  # (two different vectors have a padding branch, whatever they are called)
     ctx.ob("R-PRED", mj, "the shorter of the two vectors is zero-padded, whichever it is", okpad, "both a_var and b_var have a padding branch" if okpad else
            f"only {sorted(pads)} is padded: when the other vector is the shorter one the partial sums beyond its length are never compared (zip / indexing stops at the shorter sequence)",
            (list(pads.values()) or [None])[0])
